@@ -44,6 +44,7 @@ type exchange struct {
 	keepAlive10 bool // the origin's HTTP/1.0 response says Connection: keep-alive
 	sse      bool
 	seg      int
+	tail     int // octets that arrive in the same segment after the request: 0 none, 1 a stray CRLF, 2 the first octets of a further request that is never completed
 	rules    []string // configured --response-header rules
 }
 
@@ -137,6 +138,7 @@ func chooseExchange(x *explore.X, p string) exchange {
 		e.sse = true
 	}
 	e.seg = x.Choose(p+"segmentation", 8)
+	e.tail = x.Choose(p+"octets-after-the-request", 3)
 	return e
 }
 
@@ -504,7 +506,8 @@ func scenario(x *explore.X, incremental bool) {
 			x.Failf("closed-without-announcement", "connection closed by the proxy before exchange %d although the previous response did not announce it", i+1)
 			break
 		}
-		cl.Send(e.request(cfgk != 2))
+		// (whatever follows the request in the same segment must not keep response k from the client)
+		cl.Send(append(e.request(cfgk != 2), []string{"", "\r\n", "GET http:/"}[e.tail]...))
 		methods = append(methods, e.method)
 		msgs, conns, problem := nh.Next()
 		if len(msgs) != 1 {
@@ -546,14 +549,16 @@ func scenario(x *explore.X, incremental bool) {
 			break
 		}
 		announced := expectResponse(x, e, rs.Msgs[i], cfgk == 1)
-		if announced != closeEither && (announced == closeYes) != clientEOF() {
+		// (with stray octets after the request the proxy may close because of THEM - an empty line is not a request -
+		// which no response could have announced)
+		if e.tail == 0 && announced != closeEither && (announced == closeYes) != clientEOF() {
 			x.Failf("close-announcement", "exchange %d: response announced close=%v but connection closed=%v\n  client got head: %q", i+1, announced == closeYes, clientEOF(), world.Clip(rs.Msgs[i].Raw[:rs.Msgs[i].HeadLen]))
 		}
 		wantClose := e.connOpt == "close" || (e.version == "HTTP/1.0" && e.connOpt != "keep-alive")
 		if wantClose && !clientEOF() {
 			x.Failf("client-requested-close-ignored", "exchange %d: client asked for the connection to be closed (version %s, Connection %q) but it stays open", i+1, e.version, e.connOpt)
 		}
-		closed = clientEOF()
+		closed = clientEOF() || e.tail != 0 // after stray octets the connection is not used for a further exchange
 		outcome = append(outcome, fmt.Sprintf("%s>%d/%s/%d/close=%v", e.method, rs.Msgs[i].Status, rs.Msgs[i].Framing, len(rs.Msgs[i].Body), closed))
 	}
 	x.Outcome(fmt.Sprintf("cfg%d %s", cfgk, strings.Join(outcome, " ")))
@@ -772,7 +777,7 @@ func twoConnections(x *explore.X) {
 
 func TestC02(t *testing.T) {
 	s := explore.NewSuite(t, "C02", "exploration",
-		"sequences of 1-3 exchanges on one client connection; each exchange = request method(3) x client version(2) x client Connection option(3) x origin status(10, incl. status lines without reason phrase and without the space after the code) x header shape(8) x framing(CL, chunked, EOF-delimited 1.1, EOF-delimited 1.0, CL from a keep-alive HTTP/1.0 origin) x size(10) x chunking/trailers(5) x content(plain, gzip solicited by the proxy, gzip solicited by the client, event stream) x origin write segmentation(8) x configuration(TCP server, TestingHTTPHandler, MITM) x configured --response-header rule set(6: none, append, remove, prefix removal, rename, set-empty+remove); all combinations with at most D deviations (D=3 quick, 4 thorough) from the default sequence are executed and the client's byte stream is parsed by the independent parser and compared message by message with expectResponse; plus (two-connections) the full product framing x gzip x size x mode (optionally after an earlier download that its client aborted mid-body) of two connections of which one client stops reading in the middle of a 70000-byte response while the other performs a complete exchange, both compared exactly; plus the full product of the incremental-delivery scenario (stream kind x event size x events x client version x configuration); non-trivial = at least one response was compared")
+		"sequences of 1-3 exchanges on one client connection; each exchange = request method(3) x client version(2) x client Connection option(3) x origin status(10, incl. status lines without reason phrase and without the space after the code) x header shape(8) x framing(CL, chunked, EOF-delimited 1.1, EOF-delimited 1.0, CL from a keep-alive HTTP/1.0 origin) x size(10) x chunking/trailers(5) x content(plain, gzip solicited by the proxy, gzip solicited by the client, event stream) x origin write segmentation(8) x octets arriving with the request(nothing, a stray CRLF, the beginning of a further request that never completes) x configuration(TCP server, TestingHTTPHandler, MITM) x configured --response-header rule set(6: none, append, remove, prefix removal, rename, set-empty+remove); all combinations with at most D deviations (D=3 quick, 4 thorough) from the default sequence are executed and the client's byte stream is parsed by the independent parser and compared message by message with expectResponse; plus (two-connections) the full product framing x gzip x size x mode (optionally after an earlier download that its client aborted mid-body) of two connections of which one client stops reading in the middle of a 70000-byte response while the other performs a complete exchange, both compared exactly; plus the full product of the incremental-delivery scenario (stream kind x event size x events x client version x configuration); non-trivial = at least one response was compared")
 	s.Assume = []string{"simnet models TCP", "httpwire is trusted", "compress/gzip is used to build and check gzip bodies"}
 	s.Add(explore.Scenario{Name: "exchanges", Remote: true, MaxDev: map[string]int{"quick": 3, "thorough": 4},
 		Run: func(x *explore.X) { world.Run(t, x, func() { scenario(x, false) }) }})
